@@ -154,7 +154,18 @@ def main():
     to_map, fro_map = attr_maps()
     cases = sorted(res.cases, key=lambda c: json.dumps(c['scn'], sort_keys=True))
     if not thorough:
-        cases = [c for c in cases if chk.rng.random() < 0.3]
+        # a covering selection that does not depend on the seed (one scenario of every combination of value class, binding,
+        # encryption, response signature and the special dimensions), plus a seeded sample of the rest
+        seen, keep = set(), []
+        for c in cases:
+            s = c['scn']
+            k = (s['vclass'], s['binding'], s['enc'], s['signResp'], s['skew'], s['authnCtx'], s['idpPolicy'], s['unknownAttr'], s['sessionExpiry'])
+            if k not in seen:
+                seen.add(k)
+                keep.append(c)
+            elif chk.rng.random() < 0.15:
+                keep.append(c)
+        cases = keep
     for c in cases:
         c['seed'] = chk.seed
     for case, out, err in fw.pmap(replay, cases, init=spc.init_worker, chunk=8):
@@ -199,7 +210,7 @@ def main():
     chk.cov['rule'] = ('scenarios of EndToEnd.tla that satisfy the SP\'s requirements: sign_response x sign_assertion x encrypt_assertion x '
                       '(rsa-sha1/sha1, rsa-sha256/sha256) x POST / Redirect / SOAP x requirement triple x NameID format x session expiry x '
                       '11 value classes x unknown attribute; concrete strings drawn per class with the run seed; thorough runs all 2 032, '
-                      'quick a seeded 30%')
+                      'quick a covering selection plus a seeded 15%')
     chk.assumptions = list(fw.TOOL_ASSUMPTIONS) + ['encrypt_assertion_self_contained is left at its default (True); see DESIGN section 7',
                                                    'string values are sampled per class, not proved for all strings']
     sb.cleanup()
